@@ -455,6 +455,74 @@ pub fn run_c05_configs(rep: &Report, tier: Tier) {
         total += runs;
         rep.extra("shard_count_contention_family_runs", json!(runs));
     }
+    // expiry family: tracks expire and are collected (skip, wasted(), idle lookups) between the calls - with more
+    // shards than tracks some shard workers have nothing to report; every shard count 1..=8 gives the same records,
+    // the same expired tracks and the same idle lists
+    {
+        let (pd, qd) = (Det::ltwh(0.0, 0.0, 10.0, 20.0), Det::ltwh(100.0, 0.0, 10.0, 20.0));
+        // ops: 0 predict [P], 1 predict [P, Q], 2 predict [Q], 3 skip 2 epochs, 4 wasted(), 5 idle()
+        let nops = 6usize;
+        let mut hs: Vec<Vec<usize>> = vec![];
+        for len in 2..=tier.pick(4usize, 5usize) {
+            hs.extend(words(nops, len).into_iter().filter(|w| w[0] <= 2 && w.iter().any(|o| *o == 3)));
+        }
+        let hs = Arc::new(hs);
+        let mut runs = 0u64;
+        for kind in [Kind::Sort, Kind::VisualSort, Kind::BatchSort] {
+            let mut base = TrkCfg::new(kind);
+            base.max_idle = 1;
+            let (hs2, b2, pd2, qd2) = (hs.clone(), base.clone(), pd.clone(), qd.clone());
+            let chunk = 16usize;
+            let nchunks = (hs.len() + chunk - 1) / chunk;
+            let outs = run_jobs(nchunks, move |ci| {
+                let mut viol: Vec<(Vec<usize>, String)> = vec![];
+                for w in &hs2[ci * chunk..((ci + 1) * chunk).min(hs2.len())] {
+                    let run = |cfg: &TrkCfg| -> Vec<String> {
+                        let mut t = Guarded::new(AnyTrk::new(cfg));
+                        w.iter()
+                            .map(|o| match o {
+                                0 => format!("{:?}", t.predict(0, &[pd2.clone()])),
+                                1 => format!("{:?}", t.predict(0, &[pd2.clone(), qd2.clone()])),
+                                2 => format!("{:?}", t.predict(0, &[qd2.clone()])),
+                                3 => {
+                                    t.skip(0, 2);
+                                    String::new()
+                                }
+                                4 => format!("{:?}", t.wasted().iter().map(|x| (x.id, x.epoch, x.length)).collect::<Vec<_>>()),
+                                _ => format!("{:?}", t.idle(0).iter().map(|x| (x.id, x.epoch, x.length)).collect::<Vec<_>>()),
+                            })
+                            .collect()
+                    };
+                    let reference = run(&b2);
+                    for shards in [2usize, 3, 4, 8] {
+                        let mut c = b2.clone();
+                        c.shards = shards;
+                        c.voting_shards = 1;
+                        let t = run(&c);
+                        if t != reference {
+                            viol.push((w.clone(), format!("{shards} shards: {t:?}; 1 shard: {reference:?}")));
+                            break;
+                        }
+                    }
+                }
+                viol
+            });
+            for (ci, o) in outs.into_iter().enumerate() {
+                match o {
+                    Ok(v) => {
+                        for (w, what) in v {
+                            rep.violation(Violation { key: "shard-count/transcript-differs".into(), what, replay: json!({"part":"shard-count differential, expiry family","config":base.json(),"ops":w,"legend":"0 predict [P], 1 predict [P,Q], 2 predict [Q], 3 skip 2 epochs, 4 wasted(), 5 idle()"}) });
+                        }
+                    }
+                    Err(e) => rep.violation(Violation { key: format!("shard-count/{}/panic-or-deadlock", kind.name()), what: e.chars().take(300).collect(), replay: json!({"part":"shard-count differential, expiry family","config":base.json(),"first_history_of_the_chunk":hs[ci * chunk]}) }),
+                }
+            }
+            runs += hs.len() as u64 * 4;
+            rep.add(hs.len() as u64, hs.len() as u64 * 5, hs.len() as u64 * 4, 0);
+        }
+        total += runs;
+        rep.extra("shard_count_expiry_family_runs", json!(runs));
+    }
     rep.extra("shard_count_differential_runs", json!(total));
 }
 
